@@ -669,8 +669,11 @@ radius_pkt_attr_get_from_offset(rad_pkt_hdr_p pkt, size_t offset,
 	pkt_size = RADIUS_PKT_HDR_LEN_GET(pkt);
 	if (offset < RADIUS_PKT_HDR_SIZE || offset > pkt_size)
 		return (EINVAL);
+	if ((pkt_size - offset) < sizeof(rad_pkt_attr_t)) /* No attr header. */
+		return (EBADMSG);
 	attr = ((rad_pkt_attr_p)(((uint8_t*)pkt) + offset));
-	if (((uint8_t*)RADIUS_PKT_ATTR_NEXT(attr)) > (((uint8_t*)pkt) + pkt_size))
+	if (sizeof(rad_pkt_attr_t) > attr->len || /* Bad attr. */
+	    (pkt_size - offset) < attr->len) /* Out of pkt. */
 		return (EBADMSG);
 	(*attr_ret) = attr;
 
@@ -702,6 +705,8 @@ radius_pkt_attr_find_raw(rad_pkt_hdr_p pkt, size_t offset, uint8_t attr_type,
 		return (EINVAL);
 
 	if (0 != offset) {
+		if (RADIUS_PKT_HDR_LEN_GET(pkt) == offset)
+			return (ENOATTR); /* No more attrs. */
 		if (0 != radius_pkt_attr_get_from_offset(pkt, offset, &attr))
 			return (EINVAL);
 	} else {
@@ -1250,6 +1255,8 @@ radius_pkt_chk(rad_pkt_hdr_p pkt, size_t pkt_size) {
 
 	if (NULL == pkt)
 		return (EINVAL);
+	if (RADIUS_PKT_HDR_SIZE > pkt_size) /* No pkt header. */
+		return (EBADMSG);
 	if (RADIUS_PKT_HDR_LEN_GET(pkt) > pkt_size ||
 	    RADIUS_PKT_HDR_SIZE > RADIUS_PKT_HDR_LEN_GET(pkt) ||
 	    RADIUS_PKT_MAX_SIZE < RADIUS_PKT_HDR_LEN_GET(pkt))
